@@ -165,7 +165,7 @@ def gen_project(dim, full=False):
     PS['SC'] = sym_bool('C.build_always_stale') if full else False
     PS['IA'] = sym_int('index into A', 0, len(a_outs) - 1)
     vary_in = dim in ('inputs', 'all'); vary_co = dim in ('consumers', 'all')
-    in_b = choose(7, 'input of B') if vary_in else 2
+    in_b = choose(8, 'input of B') if vary_in else 2          # 7: a source file named by its ABSOLUTE path
     in_c = choose(5, 'input of C') if vary_in else 0
     place = choose(3, 'where B lives') if vary_in else 0          # 0: top level, 1: subdir('sub'), 2: top level with build_subdir : 'deep' (builddir != subdir)
     b_sub = place == 1
@@ -181,7 +181,7 @@ def gen_project(dim, full=False):
     L = ["project('p')", "py = find_program('python3')", "cf = configure_file(output : 'cf.txt', configuration : {'K' : 1})",
          "g = generator(py, output : ['@BASENAME@.c', '@BASENAME@.h'], arguments : ['-c', 'pass', '@INPUT@', '--pair=@OUTPUT0@,@OUTPUT1@', '@OUTPUT1@', '@EXTRA_ARGS@'])"]
     L.append("A = custom_target('A', output : %r, command : %s, '@OUTPUT@'], build_by_default : BA)" % (a_outs, PYCMD))
-    inb_expr = ["'%sin.txt'" % ('../' if b_sub else ''), 'A', 'A[IA]', 'cf', "g.process('%sin.txt', extra_args : ['%s'])" % ('../' if b_sub else '', ea.replace('\\', '\\\\')), "[A[0], '%sin.txt']" % ('../' if b_sub else ''), None][in_b]
+    inb_expr = ["'%sin.txt'" % ('../' if b_sub else ''), 'A', 'A[IA]', 'cf', "g.process('%sin.txt', extra_args : ['%s'])" % ('../' if b_sub else '', ea.replace('\\', '\\\\')), "[A[0], '%sin.txt']" % ('../' if b_sub else ''), None, "meson.project_source_root() / 'in.txt'"][in_b]
     bl = "B = custom_target('B', %soutput : 'b.txt', command : %s, %s'@OUTPUT0@'], build_by_default : BB%s%s)" % (
         ('input : %s, ' % inb_expr) if inb_expr else '', PYCMD, "'@INPUT@', " if inb_expr else '', ", depends : A, depend_files : files('%sin.txt')" % ('../' if b_sub else '') if in_b == 6 else '',
         ", build_subdir : 'deep'" if place == 2 else '')
@@ -194,6 +194,12 @@ def gen_project(dim, full=False):
         L.append(bl)
     inc_expr = ['B', 'A[0]', "'in.txt'", '[B, A]', "'in.txt'"][in_c]
     L.append("C = custom_target('C', input : %s, output : ['c1.txt', 'c2.txt'], command : %s, %s'@INPUT@', '@OUTPUT@'], build_always_stale : SC, install : IC, install_dir : ['share', false])" % (inc_expr, PYCMD, 'A[IA], ' if in_c == 4 else ''))
+    bare = vary_in and in_b == 0 and in_c == 0 and choose(2, 'a program given as a bare command name with arguments') == 1
+    if bare:
+        from mesonbuild import programs
+        PS['SH'] = programs.ExternalProgram('mysh', ['sh', '-e'], silent=True)          # as a machine file's [binaries] mysh = ['sh', '-e'] gives it: found, but its 'path' is not a file
+        L.append("D = custom_target('D', output : 'd.txt', command : [SH, '-c', 'true'])")
+        L.append("run_target('go', command : [SH, '-c', 'true'])")
     X = [None, 'A', 'C', 'B', 'C', 'A[IA]', 'A', 'C', 'B'][extra]
     if extra in (1, 2, 3): L.append("alias_target('al', %s)" % X)
     elif extra in (4, 5): L.append("run_target('rt', command : %s, %s])" % (PYCMD, X))
@@ -216,7 +222,7 @@ def gen_project(dim, full=False):
     pr.outs = outs
     pr.ins = {'A': [], 'C': [outs['B'], [a_outs[0]], ['../src/in.txt'], outs['B'] + a_outs, ['../src/in.txt']][in_c]}
     pr.c_cmd_dep = a_outs[ia] if in_c == 4 else None       # an output of another target used as an ARGUMENT of the command: a dependency, not an input
-    pr.ins['B'] = [['../src/in.txt'], a_outs, [a_outs[ia]], ['cf.txt'], None, [a_outs[0], '../src/in.txt'], []][in_b]         # None: generator outputs in B's private directory
+    pr.ins['B'] = [['../src/in.txt'], a_outs, [a_outs[ia]], ['cf.txt'], None, [a_outs[0], '../src/in.txt'], [], ['../src/in.txt']][in_b]         # None: generator outputs in B's private directory
     pr.b_generated = in_b == 4
     pr.b_extra_deps = [a_outs[0], '../src/in.txt'] if in_b == 6 else []
     pr.default = [t for t, f in (('A', PS['BA']), ('B', PS['BB'])) if decide(bt_any(f))]
